@@ -182,3 +182,7 @@ pub mod mania;
 
 /// Types used in and around this crate.
 pub mod model;
+
+/// Re-exports for external verification harnesses.
+#[cfg(feature = "verif_hooks")]
+pub mod verif_hooks;
